@@ -27,8 +27,14 @@ def run(tier: str, seed: int) -> Tuple[Stats, str, List[str], Dict[str, Any]]:
     reach_dedup = set().union(*a.values())
     if reach_all != reach_dedup:
         raise HarnessError("canonical form too coarse: states reachable without de-duplication are missed with it")
-    cachesearch.run_search(ID, tier, depth, stats, ["passive"], level_logs=logs,
-                           max_states=None if tier == "quick" else 400000)
+    if tier == "quick":
+        cachesearch.run_search(ID, "quick", depth, stats, ["passive"], level_logs=logs)
+    else:
+        # deep over the quick alphabet (38 events), wide over the thorough alphabet (110 events)
+        cachesearch.run_search(ID, "quick", depth, stats, ["passive"], level_logs=logs, max_states=3_000_000)
+        wide: Dict[str, list] = {}
+        cachesearch.run_search(ID, "thorough", 3, stats, ["passive"], level_logs=wide, max_states=2_000_000)
+        stats.notes["levels_wide_alphabet"] = wide
     s = cachesearch.Search(ID, tier)
     stats.notes["levels"] = logs
     stats.notes["alphabet_datagrams"] = len(s.dgrams)
@@ -45,7 +51,8 @@ def run(tier: str, seed: int) -> Tuple[Stats, str, List[str], Dict[str, Any]]:
         "single-result lookups (get_by_details, get(DNSEntry)) may return any matching record of the model",
         "region argument: behaviour only changes when a clock difference crosses 1000 ms, a TTL or the 10 s purge period",
     ]
-    bounds = {"depth": depth, "events": len(s.events)}
+    bounds = {"depth": depth, "events": len(cachesearch.Search(ID, "quick").events),
+              "wide_alphabet": None if tier == "quick" else {"depth": 3, "events": len(s.events)}}
     return stats, rule, assumptions, bounds
 
 
